@@ -9,11 +9,16 @@ Two streams (this module also hosts the machinery shared with C03, which imports
    slack passed); Auer with real centres and per-design width rows written into the real object.
    The resulting sets are compared with the Lean model `VOPy.Steps.*` (driver_c02).
 2. *real geometry* — real `run_one_step()` of PaVeBa (EmpiricalMeanVarModel, dyadic observations),
-   of the GP algorithms on `ScriptedModel` posteriors and of Auer with `use_empirical_beta=True`
-   on a heteroscedastic problem; every phase is intercepted, the oracle Booleans are evaluated on
-   the real displayed regions by the real predicates once more outside the algorithm
-   (`geometry_tables` — the hook where exact C09/C10/C11 models can be substituted), and the
-   transition is recomputed by the Lean model.
+   of the GP algorithms on `ScriptedModel` posteriors (covariances L·Lᵀ with dyadic L) or on a real
+   gpytorch posterior with fixed hyper-parameters, and of Auer with `use_empirical_beta=True` on a
+   heteroscedastic problem; every phase is intercepted.  The displayed regions are exported exactly and
+   this property's own Lean driver recomputes the oracle tables with the exact geometry models of
+   C09 (`Rect` / `Ellipsoid.isDominatedTol`), C10 (`Covered.*`) and C11 (`Pess.isPtIn`), each decided
+   with the per-facet margin moved by ±τ (τ = 1e-6·scale; 1e-3·scale for ellipsoidal is_covered);
+   on rounds whose relevant pair decisions are all robust the whole transition is recomputed by the
+   model and compared (R) with the real one (`check_round_exact`).  In addition the transition logic
+   alone is checked on every round against tables obtained by calling the real predicates once more
+   outside the algorithm (`geometry_tables`).
 """
 from __future__ import annotations
 
@@ -28,12 +33,15 @@ RULE = ("stream 1: (algorithm class, cone, n ≤ 7 (thorough: 10) designs, index
         "empty, full, diagonal-only, chain, antisymmetric, witnesses-only-in-U / only-outside-the-pessimistic-set, "
         "single-design S, overlapping S/P); Auer: dyadic centres and per-design width rows differing ≥ 2×. "
         "stream 2: whole rounds of the real algorithms on small synthetic datasets (≤ 6 designs, scripted or "
-        "empirical posteriors, seeded dyadic noise), tables recomputed from the displayed regions with the real "
-        "predicates. non-trivial = at least one design eliminated and at least one design of S not eliminated; "
+        "empirical posteriors, seeded dyadic noise; shapes scatter / cone-chain = designs strung along an interior "
+        "direction of the cone with gaps comparable to the region widths; acute, obtuse, N>m cones), oracle tables "
+        "recomputed from the exactly exported displayed regions by the exact C09/C10/C11 models (robust decisions only) "
+        "and, separately, by the real predicates. non-trivial = at least one design eliminated and at least one design of S not eliminated; "
         "distinct by (algorithm, sets, tables / regions)")
 ASSUMPTIONS = [
-    "oracle Booleans stand for the geometry predicates (C09/C10/C11 tie them to the regions); in stream 2 they "
-    "are the real predicates evaluated a second time on the same region objects",
+    "stream 1: oracle Booleans stand for the geometry predicates; stream 2: they are recomputed from the displayed "
+    "regions by the exact models of C09/C10/C11 (rounds with a pair decision inside the ±τ band, or without a "
+    "certificate, are counted and skipped), and once more by the real predicates",
     "Python sets of small ints are given an explicit iteration order through a set subclass (ShuffledSet)",
 ]
 MAX_JOBS = 14
@@ -316,9 +324,10 @@ RUN_ALGS = ["PaVeBa", "PaVeBa", "PaVeBaGP-IH", "PaVeBaGP-DE", "PaVeBaPartialGP-r
             "VOGP", "VOGP", "EpsilonPAL", "VOGP_AD", "Auer", "Auer"]
 
 
-def gen_run_case(rng, alg=None):
+def gen_run_case(rng, alg=None, cone=None, chain=None):
     alg = alg or rng.choice(RUN_ALGS)
     n = rng.randint(3, 6) if alg == "Auer" else rng.randint(2, 6)
+    forced_cone = cone
     if alg in ("EpsilonPAL", "Auer"):
         m = rng.choice([2, 2, 3])
         cone = "orthant%d" % m
@@ -328,14 +337,25 @@ def gen_run_case(rng, alg=None):
         cone = rng.choice(["orthant2", "acute2", "obtuse2", "orthant3", "acute3"] * 4 + ["threefacet2"])
     else:
         cone = rng.choice(["orthant2", "acute2", "obtuse2", "threefacet2", "orthant3", "acute3", "fourfacet3"])
+    if forced_cone is not None:
+        cone = forced_cone
     W, _ = EXACT_CONES[cone]
     m = len(W[0])
     spread = rng.choice([2, 4, 8])
     Y = [[core.dyadic(rng, -4 * spread, 4 * spread, 3) for _ in range(m)] for _ in range(n)]
     if rng.random() < 0.3 and n >= 2:
         Y[1] = list(Y[0])  # identical designs → identical / touching regions
+    shape = "scatter"
+    if chain or (chain is None and rng.random() < 0.4):
+        # designs strung along the all-ones direction (interior to every cone used here) with small sideways
+        # jitter: many domination relations in narrow (acute) cones too, gaps comparable to the region widths
+        shape = "cone-chain"
+        g = rng.choice([0.25, 0.5, 1.0, 2.0])
+        base = [core.dyadic(rng, -8, 8, 3) for _ in range(m)]
+        ks = [rng.randint(0, 4) for _ in range(n)]
+        Y = [[b + k * g + core.dyadic(rng, -2, 2, 3) * g / 2 for b in base] for k in ks]
     X = [[i / 8.0, ((i * 5) % 8) / 8.0] for i in range(n)]
-    case = {"kind": "run", "alg": alg, "cone": cone, "eps": rng.choice([0.125, 0.25, 0.5, 1.0]),
+    case = {"kind": "run", "shape": shape, "alg": alg, "cone": cone, "eps": rng.choice([0.125, 0.25, 0.5, 1.0]),
             "delta": 0.05, "n": n, "in_data": X, "out_data": Y, "seed": rng.randrange(10 ** 6),
             "rounds": rng.randint(1, 3)}
     if alg == "PaVeBa":
@@ -359,9 +379,18 @@ def gen_run_case(rng, alg=None):
     else:
         conf = ([16, 32, 64, 128] if alg.startswith("PaVeBaGP") else [4, 8, 16, 32] if alg.startswith("PaVeBaPartial")
                 else [2, 4, 8, 32])
-        case.update({"noise_var": 0.0625, "conf": rng.choice(conf),
-                     "vars": [[rng.choice([0.0025, 0.01, 0.04, 0.16]) for _ in range(m)] for _ in range(n)],
-                     "rho": [rng.choice([0.0, 0.0, 0.5, -0.5]) for _ in range(n)],
+        # posterior covariance of design i = L_i L_iᵀ with a dyadic lower-triangular L_i, so that Σ is exact in
+        # binary64 and the exact ellipsoid models (which need a factor of Σ) apply
+        corr = alg in ("PaVeBaGP-DE", "VOGP", "VOGP_AD")
+        Ls = []
+        for _ in range(n):
+            L = [[0.0] * m for _ in range(m)]
+            for a_ in range(m):
+                L[a_][a_] = rng.choice([0.0625, 0.125, 0.25, 0.5])
+                for b_ in range(a_):
+                    L[a_][b_] = rng.choice([0.0, 0.0, 0.0625, -0.0625, 0.125, -0.125]) if corr else 0.0
+            Ls.append(L)
+        case.update({"noise_var": 0.0625, "conf": rng.choice(conf), "L": Ls,
                      "mean_err": [[core.dyadic(rng, -2, 2, 3) for _ in range(m)] for _ in range(n)]})
         if alg == "VOGP_AD":
             case.update({"max_depth": rng.choice([1, 2, 2]), "rounds": rng.randint(2, 6)})
@@ -384,6 +413,14 @@ def gen(ctx):
                 yield gen_table_case(rng, alg)
         for alg in sorted(set(RUN_ALGS)):
             yield gen_run_case(rng, alg)
+        # rectangle-based discarding on narrow / many-facet cones with gaps comparable to the region widths
+        for alg, cones in (("VOGP", ["acute2", "acute3", "threefacet2", "fourfacet3"]),
+                           ("VOGP_AD", ["acute2", "threefacet2"]), ("PaVeBaGP-IH", ["acute2", "acute3"]),
+                           ("PaVeBaPartialGP-rect", ["acute2", "acute3"]), ("PaVeBaGP-DE", ["acute2"]),
+                           ("PaVeBa", ["acute2", "threefacet2"])):
+            for cone in cones:
+                for _ in range(2):
+                    yield gen_run_case(rng, alg, cone=cone, chain=True)
     for _ in range(ctx.n(150, 6000)):
         yield gen_auer_case(rng)
     nmax = 7 if ctx.tier == "quick" else 10
@@ -694,9 +731,13 @@ def build_run_algorithm(case):
             return stubs.build(name, problem=pr, W=W, model="fixed", **common)
         kw = {} if name == "EpsilonPAL" else {"W": W}
         return stubs.build(name, in_data=X, out_data=Y, model="fixed", **kw, **common)
-    V = np.array(case["vars"], dtype=float)
-    covs = np.zeros((len(V), m, m))
-    for i in range(len(V)):
+    if "L" in case:
+        covs = np.array([np.array(L, dtype=float) @ np.array(L, dtype=float).T for L in case["L"]])
+        V = None
+    else:  # older corpus cases: variances + correlation (no exact factor available)
+        V = np.array(case["vars"], dtype=float)
+        covs = np.zeros((len(V), m, m))
+    for i in range(len(V) if V is not None else 0):
         sd = np.sqrt(V[i])
         covs[i] = np.diag(V[i])
         if name in ("PaVeBaGP-DE", "VOGP", "VOGP_AD") and case["rho"][i] != 0.0:
@@ -802,6 +843,7 @@ def case_is_auer(alg):
 def run_real(ctx, case, prop):
     name = case["alg"]
     ctx.count("run_" + name)
+    ctx.count("runshape_" + case.get("shape", "scatter"))
     try:
         alg = build_run_algorithm(case)
     except Exception as e:
@@ -838,7 +880,7 @@ def run_real(ctx, case, prop):
         nt = check_round(ctx, case, prop, alg, trace, rnd)
         nontrivial = nontrivial or nt
     ctx.case_done(case, nontrivial, canon=[name, case["cone"], case["in_data"], case["out_data"], case["seed"],
-                                           case.get("vars"), case["conf"], case["eps"]])
+                                           case.get("vars"), case.get("L"), case["conf"], case["eps"]])
 
 
 def check_round(ctx, case, prop, alg, trace, rnd):
@@ -863,6 +905,7 @@ def check_round(ctx, case, prop, alg, trace, rnd):
     _, b_par, a_par = ph[nxt]
     if name == "Auer":
         return check_round_auer(ctx, case, prop, alg, ph, rnd)
+    check_round_exact(ctx, case, prop, alg, ph, rnd)
     active = sorted(set(S0) | set(P0 if is_pess(name) else U0))
     n, dom, cov, pess = geometry_tables(alg, active, is_pess(name), want_cov=(prop != "C02"))
     ctx.count("geometry_pairs", len(active) * (len(active) - 1))
@@ -932,6 +975,225 @@ def check_round(ctx, case, prop, alg, trace, rnd):
     new = sorted(set(mP) - set(P0))
     ctx.count("real_entered_%s" % ("none" if not new else "all" if len(new) == len(b_par["S"]) else "some"))
     return 0 < len(new) < len(b_par["S"])
+
+
+# --------------------------------------------------------------------------------------------
+# exact geometry (the C09 / C10 / C11 models run by this property's own driver)
+# --------------------------------------------------------------------------------------------
+TAU = 1e-6          # borderline band: per-facet margin ± TAU·scale
+TAU_ELL_COV = 1e-3  # ellipsoidal is_covered is a feasibility SOCP: band ruled for C10
+
+
+def _slack_q(x):
+    return core.qvec(np.atleast_1d(np.asarray(x, dtype=float)).reshape(-1))
+
+
+def _wnorm(W):
+    return max(1.0, float(np.max(np.abs(np.asarray(W, dtype=float)).sum(axis=1))))
+
+
+def _ell_factor(case, i, sigma):
+    """exact factor L (L Lᵀ = Σ in exact arithmetic) of design i's displayed ellipsoid, or None"""
+    m = sigma.shape[0]
+    if np.array_equal(sigma, np.eye(m)):
+        return np.eye(m)
+    if "L" not in case or case.get("model") == "fixed" or i >= len(case["L"]):
+        return None
+    L = np.array(case["L"][i], dtype=float)
+    Lf = [[core.frac(x) for x in r] for r in L]
+    for a in range(m):
+        for b in range(m):
+            if sum(Lf[a][k] * Lf[b][k] for k in range(m)) != core.frac(sigma[a, b]):
+                return None
+    return L
+
+
+def _propose_ell_cert(W, c1, L1, a1, c2, L2, a2, t):
+    """untrusted numeric proposal for `∃ z∈E₁, z'∈E₂ : W(z'−z) ≥ t`: witness (u1, u2) maximising the worst
+    normalised facet margin, and the dual multipliers `lam` of the facet constraints (a separating
+    functional when infeasible).  Checked in Lean by `Covered.ellVerdict`."""
+    import cvxpy as cp
+
+    W = np.asarray(W, dtype=float)
+    wn = np.linalg.norm(W, axis=1)
+    m = W.shape[1]
+    sc = max(float(np.max(np.abs(L1))) * max(a1, 1e-300), float(np.max(np.abs(L2))) * max(a2, 1e-300),
+             float(np.max(np.abs(c2 - c1))), 1e-300)
+    u1, u2, mu = cp.Variable(m), cp.Variable(m), cp.Variable()
+    cone = (W @ ((c2 - c1) / sc + (L2 / sc) @ u2 - (L1 / sc) @ u1)) / wn - mu >= t / sc / wn
+    prob = cp.Problem(cp.Maximize(mu), [cp.norm(u1) <= a1, cp.norm(u2) <= a2, cone])
+    try:
+        prob.solve(solver=cp.CLARABEL)
+    except Exception:
+        try:
+            prob.solve(solver=cp.SCS, eps=1e-9)
+        except Exception:
+            return None
+    if prob.status not in ("optimal", "optimal_inaccurate") or u1.value is None:
+        return None
+    lam = np.maximum(np.asarray(cone.dual_value, dtype=float).reshape(-1), 0.0) / wn
+
+    def shrink(u, a):
+        nrm = float(np.linalg.norm(u))
+        if nrm > 0:
+            u = u * min(1.0, a / nrm)
+        return u * (1 - 1e-9)
+
+    return shrink(np.asarray(u1.value, dtype=float), a1), shrink(np.asarray(u2.value, dtype=float), a2), lam
+
+
+def exact_tables(ctx, alg, case, active, want_pess, cov_pairs):
+    """Three-valued oracle tables over `active` recomputed by the Lean driver from the exactly exported
+    displayed regions.  `cov_pairs` = ordered pairs (i, j) whose `isCov` entry is needed (only used for
+    general ellipsoids, where every pair costs one numeric certificate proposal).  Returns
+    (n, dom, cov, pess) as lists of n strings over '1','0','?','E' (cov/pess may be None)."""
+    regs = alg.design_space.confidence_regions
+    n = len(regs)
+    W = np.asarray(alg.order.ordering_cone.W, dtype=float)
+    sl = stubs.expected_slack(alg)
+    Wq, act = core.qmat(W), core.nats(active)
+    wn = _wnorm(W)
+
+    def rows(sn):
+        if sn in (None, "_"):
+            return None
+        return [sn[k * n:(k + 1) * n] for k in range(n)]
+
+    if hasattr(regs[0], "lower"):
+        data = [abs(float(x)) for i in active for x in list(regs[i].lower) + list(regs[i].upper)]
+        data += [abs(float(x)) for x in np.atleast_1d(sl["dom"]).reshape(-1)] + [abs(float(x)) for x in np.atleast_1d(sl["cov"]).reshape(-1)]
+        tau = TAU * max(1.0, max(data)) * wn
+        ans = ctx.ask("geomrect", Wq, core.qmat([r.lower for r in regs]), core.qmat([r.upper for r in regs]), act,
+                      _slack_q(sl["dom"]), _slack_q(sl["cov"]), core.q(tau), "1" if want_pess else "0")
+        if ans == "bad-op":
+            raise RuntimeError("driver rejected geomrect")
+        d, c, p = ans.split("|")
+        return n, rows(d), rows(c), rows(p)
+    # ---- ellipsoids
+    C = [np.asarray(r.center, dtype=float).reshape(-1) for r in regs]
+    S = [np.asarray(r.sigma, dtype=float) for r in regs]
+    A = [float(np.asarray(r.alpha).reshape(-1)[0]) for r in regs]
+    ext = [abs(float(x)) for i in active for x in C[i]] + \
+          [A[i] * float(np.sqrt(max(np.max(np.abs(S[i])), 0.0))) for i in active] + \
+          [abs(float(x)) for x in np.atleast_1d(sl["cov"]).reshape(-1)]
+    scale = max(1.0, max(ext)) * wn
+    d = ctx.ask("geomelldom", Wq, core.qmat(C), core.qmats(S), core.qvec(A), act, _slack_q(sl["dom"]),
+                core.q(TAU * scale))
+    if d == "bad-op":
+        raise RuntimeError("driver rejected geomelldom")
+    tau_c = TAU_ELL_COV * scale
+    if all(np.array_equal(S[i], np.eye(len(C[i]))) for i in active):
+        c = ctx.ask("geomballcov", Wq, core.qmat(C), core.qvec(A), act, _slack_q(sl["cov"]), core.q(tau_c))
+        return n, rows(d), rows(c), None
+    cov = [["0"] * n for _ in range(n)]
+    fac = {i: _ell_factor(case, i, S[i]) for i in active}
+    slv = np.atleast_1d(np.asarray(sl["cov"], dtype=float)).reshape(-1)
+    tvec = slv if slv.size == len(W) else np.full(len(W), slv[0]) if slv.size == 1 else None
+    for (i, j) in cov_pairs:
+        if fac.get(i) is None or fac.get(j) is None or tvec is None:
+            cov[i][j] = "?"
+            ctx.count("ellcov_no_exact_factor")
+            continue
+        cert = _propose_ell_cert(W, C[i], fac[i], A[i], C[j], fac[j], A[j], tvec)
+        if cert is None:
+            cov[i][j] = "?"
+            ctx.count("ellcov_numeric_failed")
+            continue
+        u1, u2, lam = cert
+        base = [Wq, core.qvec(C[i]), core.qmat(fac[i]), core.q(A[i]), core.qvec(C[j]), core.qmat(fac[j]),
+                core.q(A[j]), _slack_q(sl["cov"])]
+        v = [ctx.ask("ellcov", *base, core.q(t), core.qvec(u1), core.qvec(u2), core.qvec(lam)) for t in (tau_c, -tau_c)]
+        cov[i][j] = "1" if v == ["1", "1"] else "0" if v == ["0", "0"] else "E" if "ValueError" in v else "?"
+        ctx.count("ellcov_pairs")
+    return n, rows(d), ["".join(r) for r in cov], None
+
+
+def robust_bits(table, n, pairs):
+    """Boolean n×n bit string from a three-valued table if every entry in `pairs` is robust, else None"""
+    if any(table[i][j] not in "01" for (i, j) in pairs):
+        return None
+    return "".join("1" if ch == "1" else "0" for r in table for ch in r) if n else "_"
+
+
+def check_round_exact(ctx, case, prop, alg, ph, rnd):
+    """(R) — the real transition against the certificate recomputed from exact geometry: elimination /
+    P-entry / U must be exactly what the displayed regions certify, on rounds whose relevant pair
+    decisions are all robust (not within the numerical band of the boundary)."""
+    name = case["alg"]
+    pess_family = is_pess(name)
+    nxt = "epsiloncovering" if pess_family else "pareto_updating"
+    _, b_dis, a_dis = ph["discarding"]
+    _, b_par, a_par = ph[nxt]
+    S0, P0, U0 = b_dis["S"], b_dis["P"], b_dis.get("U", [])
+    S1r = b_par["S"]
+    S2, P2 = sset(a_par["S"]), a_par["P"]
+    other = P0 if pess_family else U0
+    A0 = sorted(set(S0) | set(other))
+    active = sorted(set(S0) | set(P0) | set(U0))
+    A1 = sorted(set(S1r) | set(other))
+    cov_pairs = [(i, j) for i in S1r for j in A1 if i != j]
+    if "useful_updating" in ph:
+        cov_pairs += [(s, p) for s in S2 for p in P2 if s != p and (s, p) not in cov_pairs]
+    try:
+        n, dom, cov, pess = exact_tables(ctx, alg, case, active, pess_family, cov_pairs if prop != "C02" else [])
+    except ValueError as e:  # non-finite region bounds cannot be exported
+        ctx.count("exact_export_failed")
+        return
+    ns = str(n)
+    Sa, Pa, Ua = core.nats(S0), core.nats(P0), core.nats(U0)
+    detail = {"round": rnd, "S": S0, "P": P0, "U": U0, "regions": export_regions(alg, active),
+              "exact_dom": dom, "exact_cov": cov, "exact_pess": pess}
+    if prop == "C02":
+        dpairs = [(i, j) for i in S0 for j in A0 if i != j]
+        D = robust_bits(dom, n, dpairs)
+        T = robust_bits(pess, n, [(j, i) for i in A0 for j in A0 if i != j]) if pess_family else "_"
+        if D is None or T is None:
+            ctx.count("exact_round_borderline")
+            return
+        model = core.parse_nats(ctx.ask("vogp", Sa, Pa, ns, D, T) if pess_family else ctx.ask("paveba", Sa, Ua, ns, D))
+        elim = sorted(set(S0) - set(S2) - set(P2))
+        cert = sorted(set(S0) - set(model))
+        ctx.count("exact_rounds_checked")
+        if elim != cert:
+            detail.update({"eliminated": elim, "certified": cert})
+            viol(ctx, f"exact-elim:{name}", f"{name}.run_one_step(): the designs that left S without entering P are not "
+                 "exactly those whose displayed region is certified dominated (exact geometry: C09/C11 models)",
+                 case, kind="R", detail=detail)
+        return
+    # ---- C03
+    Cb = robust_bits(cov, n, [(i, j) for i in S1r for j in A1 if i != j])
+    if Cb is None:
+        ctx.count("exact_round_borderline")
+        return
+    S1a = core.nats(S1r)
+    if name == "VOGP_AD":
+        depths = list(alg.design_space.point_depths)[:n]
+        ans = ctx.ask("coverad", S1a, Pa, ns, Cb, core.nats(depths), str(alg.max_discretization_depth),
+                      "1" if b_par["enabled"] else "0").split(";")
+        mS, mP = core.parse_nats(ans[0]), core.parse_nats(ans[1])
+    elif pess_family:
+        mS, mP = parse_sets(ctx.ask("cover", S1a, Pa, ns, Cb))
+    else:
+        mS, mP = parse_sets(ctx.ask("pareto", S1a, Pa, Ua, ns, Cb))
+    ctx.count("exact_rounds_checked")
+    if (S2, P2) != (mS, mP):
+        detail.update({"impl": [S2, P2], "model": [mS, mP], "S_after_discard": S1r})
+        viol(ctx, f"exact-pareto:{name}", f"{name}.run_one_step(): P did not gain exactly the candidates whose displayed "
+             "region no other active displayed region can still ε-cover (exact geometry: C10 model)", case, kind="R",
+             detail=detail)
+        return
+    if "useful_updating" in ph:
+        U2 = ph["useful_updating"][2]["U"]
+        Ub = robust_bits(cov, n, [(s, p) for s in S2 for p in P2 if s != p])
+        if Ub is None:
+            ctx.count("exact_useful_borderline")
+            return
+        mU = core.parse_nats(ctx.ask("useful", core.nats(S2), core.nats(P2), ns, Ub))
+        if U2 != mU:
+            detail.update({"impl_U": U2, "model_U": mU})
+            viol(ctx, f"exact-useful:{name}", f"{name}.run_one_step(): U is not exactly the members of P whose displayed "
+                 "region can still ε-cover a remaining candidate (exact geometry: C10 model)", case, kind="R",
+                 detail=detail)
 
 
 def check_round_auer(ctx, case, prop, alg, ph, rnd):
